@@ -1,5 +1,6 @@
 import Tpp.Model.Palette
 import Tpp.Generated.Tables
+import Tpp.Model.Tokens
 /-!
 The stream inserters of the colour types (`src/colour.cpp`): what `out << colour` appends to a stream.
 `fmt::format` produces the text, so the stream's number base, `showbase`, `showpos`, `uppercase` and adjustment
@@ -35,5 +36,140 @@ def showColourText : Colour → List Byte
   | .high v => showHighColour v
   | .grey v => showGreyColour v
   | .rgb r g b => showTrueColour r g b
+
+/-! ### The other stream inserters (`src/{glyph,character_set,effect,attribute,element,string,point,extent,rectangle,
+mouse,control_sequence,virtual_key}.cpp`).  Literal text is written as strings; `fmt::format` output is computed. -/
+
+def lit (s : String) : List Byte := s.toUTF8.toList
+
+/-- `{}` of an `int` -/
+def showInt (i : Int) : List Byte := if i < 0 then 0x2D :: decDigits i.natAbs else decDigits i.toNat
+
+/-- upper-case hex digits of a number (at least one) -/
+def hexDigitsUpper (n : Nat) : List Byte :=
+  (Nat.toDigits 16 n).map fun c => if c.isLower then UInt8.ofNat (c.toNat - 32) else UInt8.ofNat c.toNat
+/-- `{:0wX}` -/
+def hexPadUpper (w n : Nat) : List Byte :=
+  let ds := hexDigitsUpper n
+  List.replicate (w - ds.length) 0x30 ++ ds
+
+/-- `operator<<(ostream&, character_set)`: the name from the regenerated table, nothing when there is none -/
+def printCharset (cs : Charset) : List Byte :=
+  match Tables.character_set_strings.find? (fun p => p.1 = cs.code) with
+  | some p => p.2.map UInt8.ofNat
+  | none => []
+
+/-- `is_printable`: the four regenerated 256-entry tables of src/glyph.cpp; every other set uses the DEC one -/
+def isPrintable (cs : Charset) (c : Byte) : Bool :=
+  let tbl := match cs with
+    | .uk => Tables.is_printable_uk
+    | .usAscii => Tables.is_printable_us_ascii
+    | .sco => Tables.is_printable_sco
+    | _ => Tables.is_printable_dec
+  tbl.getD c.toNat 0 != 0
+
+/-- `output_charset_and_character` -/
+def printCharsetAndCharacter (g : Glyph) : List Byte :=
+  (if g.cs ≠ Charset.default then printCharset g.cs ++ [0x3A] else []) ++
+  (if g.b0 = 0x0D then lit "\\r" else if g.b0 = 0x0A then lit "\\n" else if g.b0 = 0x09 then lit "\\t"
+   else if isPrintable g.cs g.b0 then [g.b0] else lit "0x" ++ hexPadUpper 2 g.b0.toNat)
+
+/-- `utf8_decode` of src/glyph.cpp (0 for a lead byte that is none) -/
+def utf8Decode (g : Glyph) : Nat :=
+  let a := g.b0.toNat; let b := g.b1.toNat; let c := g.b2.toNat
+  if a / 128 = 0 then a
+  else if a / 32 = 6 then (a % 32) * 64 + b % 64
+  else if a / 16 = 14 then (a % 16) * 4096 + (b % 64) * 64 + c % 64
+  else 0
+
+/-- `operator<<(ostream&, glyph)` -/
+def printGlyph (g : Glyph) : List Byte :=
+  if g.cs = .utf8 ∧ ¬ g.b0.toNat ≤ 0x7F then lit "U+" ++ hexPadUpper 4 (utf8Decode g) else printCharsetAndCharacter g
+
+def printIntensity : Intensity → List Byte
+  | .normal => lit "normal" | .bold => lit "bold" | .faint => lit "faint"
+def printUnderlining : Underlining → List Byte
+  | .underlined => lit "underlined" | .notUnderlined => lit "not underlined"
+def printPolarity : Polarity → List Byte
+  | .positive => lit "positive" | .negative => lit "negative"
+def printBlinking : Blinking → List Byte
+  | .blink => lit "blinking" | .steady => lit "steady"
+
+/-- `operator<<(ostream&, attribute)`: the non-default members, separated by commas -/
+def printAttr (a : Attr) : List Byte :=
+  let parts : List (List Byte) :=
+    (if a.fg ≠ Colour.default then [lit "foreground[" ++ showColourText a.fg ++ lit "]"] else []) ++
+    (if a.bg ≠ Colour.default then [lit "background[" ++ showColourText a.bg ++ lit "]"] else []) ++
+    (if a.intensity ≠ .normal then [printIntensity a.intensity] else []) ++
+    (if a.underlining ≠ .notUnderlined then [printUnderlining a.underlining] else []) ++
+    (if a.polarity ≠ .positive then [printPolarity a.polarity] else []) ++
+    (if a.blinking ≠ .steady then [printBlinking a.blinking] else [])
+  (parts.intersperse (lit ",")).flatten
+
+/-- `operator<<(ostream&, element)` -/
+def printElement (e : Element) : List Byte :=
+  lit "glyph[" ++ printGlyph e.glyph ++ lit "]" ++
+  (if e.attr ≠ {} then lit ",attribute[" ++ printAttr e.attr ++ lit "]" else [])
+
+/-- `operator<<(ostream&, string)` -/
+def printString (es : List Element) : List Byte :=
+  ((es.map fun e => lit "element[" ++ printElement e ++ lit "]").intersperse (lit ",")).flatten
+
+def printPoint (p : Point) : List Byte := lit "point(" ++ showInt p.x ++ lit "," ++ showInt p.y ++ lit ")"
+def printExtent (e : Extent) : List Byte := lit "extent(" ++ showInt e.width ++ lit "," ++ showInt e.height ++ lit ")"
+def printRectangle (r : Rectangle) : List Byte :=
+  lit "rectangle(" ++ printPoint r.origin ++ lit ", " ++ printExtent r.size ++ lit ")"
+
+/-- `operator<<(ostream&, mouse::event)`; `code` is the stored action value (any byte) -/
+def printMouse (ev : MouseEvent) : List Byte :=
+  let code := ev.action
+  lit "mouse_event[" ++ printPoint ev.position ++ lit ", " ++
+  (if code = Consts.ev_left_button_down then lit "lmb" else if code = Consts.ev_middle_button_down then lit "mmb"
+   else if code = Consts.ev_right_button_down then lit "rmb" else if code = Consts.ev_button_up then lit "up"
+   else if code = Consts.ev_no_button_change then lit "no-change" else if code = Consts.ev_scrollwheel_down then lit "sdn"
+   else if code = Consts.ev_scrollwheel_up then lit "sup" else lit "unk") ++ lit "]"
+
+/-- `operator<<(ostream&, control_sequence)`: the non-default members, separated by `, ` -/
+def printCtrlSeq (c : ControlSequence) : List Byte :=
+  let parts : List (List Byte) :=
+    (if c.initiator ≠ 0 then [lit "initiator:'" ++ [c.initiator] ++ lit "'"] else []) ++
+    (if c.command ≠ 0 then [lit "command:'" ++ [c.command] ++ lit "'"] else []) ++
+    (if c.«meta» then [lit "meta"] else []) ++
+    (if c.arguments ≠ [] then [lit "args:\"" ++ (c.arguments.intersperse [0x3B]).flatten ++ lit "\""] else []) ++
+    (if c.extender ≠ 0 then [lit "extender:'" ++ [c.extender] ++ lit "'"] else [])
+  lit "control_sequence[" ++ (parts.intersperse (lit ", ")).flatten ++ lit "]"
+
+/-- names of the abstract keys in `operator<<(ostream&, vk)` -/
+def vkNames : List (Nat × String) :=
+  [(Consts.vk_cursor_up, "cursor_up"), (Consts.vk_cursor_down, "cursor_down"), (Consts.vk_cursor_left, "cursor_left"),
+   (Consts.vk_cursor_right, "cursor_right"), (Consts.vk_home, "home"), (Consts.vk_ins, "ins"), (Consts.vk_end, "end"),
+   (Consts.vk_pgup, "pgup"), (Consts.vk_pgdn, "pgdn"), (Consts.vk_bt, "bt"), (Consts.vk_enter, "enter"),
+   (Consts.vk_f1, "f1"), (Consts.vk_f2, "f2"), (Consts.vk_f3, "f3"), (Consts.vk_f4, "f4"), (Consts.vk_f5, "f5"),
+   (Consts.vk_f6, "f6"), (Consts.vk_f7, "f7"), (Consts.vk_f8, "f8"), (Consts.vk_f9, "f9"), (Consts.vk_f10, "f10"),
+   (Consts.vk_f11, "f11"), (Consts.vk_f12, "f12")]
+
+/-- `operator<<(ostream&, vk)` -/
+def printVk (k : Nat) : List Byte :=
+  if k ≤ 0x1F ∨ (Consts.vk_del ≤ k ∧ k ≤ Consts.vk_f12) then
+    if k = 0x0D then lit "'\\r'" else if k = 0x0A then lit "'\\n'" else if k = 0x09 then lit "'\\t'"
+    else match vkNames.find? (fun p => p.1 = k) with
+      | some p => lit p.2
+      | none => lit "'\\x" ++ hexPadUpper 2 (k % 256) ++ lit "'"
+  else lit "'" ++ [UInt8.ofNat k] ++ lit "'"
+
+def printVkMods (m : Nat) : List Byte :=
+  let parts : List (List Byte) :=
+    (if m.testBit 0 then [lit "shift"] else []) ++ (if m.testBit 1 then [lit "ctrl"] else []) ++
+    (if m.testBit 2 then [lit "alt"] else []) ++ (if m.testBit 3 then [lit "meta"] else [])
+  (parts.intersperse (lit "|")).flatten
+
+/-- `operator<<(ostream&, virtual_key)` -/
+def printVKey (v : VirtualKey) : List Byte :=
+  let parts : List (List Byte) :=
+    (if v.key ≠ 0 then [lit "vk:" ++ printVk v.key.toNat] else []) ++
+    (if v.modifiers ≠ 0 then [printVkMods v.modifiers.toNat] else []) ++
+    (if v.repeatCount ≠ 0 then [lit "repeat:" ++ showInt v.repeatCount] else []) ++
+    (if v.sequence ≠ .raw 0 then [lit "seq:" ++ (match v.sequence with | .raw b => [b] | .control c => printCtrlSeq c)] else [])
+  lit "virtual_key[" ++ (parts.intersperse (lit ", ")).flatten ++ lit "]"
 
 end Tpp
